@@ -20,6 +20,36 @@ type Opts struct {
 	// actions, 1 = after the actions followed by an unrelated helper method, 2 = between
 	// the actions with helper methods on both sides.
 	BoundsLayout int
+	// NilMask: bit i set = rule i (if eligible, see NilRules) has an interface type (nilI) and its
+	// actions return a nil interface value (the way side-effect-only actions do). The node is
+	// still built and logged; the start rule's node is still kept in p.res.
+	NilMask uint64
+}
+
+// NilRules lists the rules that return nil under mask: rules with the bit set that are never the
+// element of a sugar term (a nil element under x*! would have Discard() called on it, and an absent
+// x? could not be told from a present one).
+func NilRules(g *G, mask uint64) map[string]bool {
+	out := map[string]bool{}
+	if mask == 0 {
+		return out
+	}
+	sugared := map[string]bool{}
+	for _, r := range g.Rules {
+		for _, p := range r.Prods {
+			for _, t := range p.Terms {
+				if t.Kind != KSym && t.Kind != KErr && !t.IsTok {
+					sugared[t.Name] = true
+				}
+			}
+		}
+	}
+	for i, r := range g.Rules {
+		if i < 64 && mask&(1<<uint(i)) != 0 && !sugared[r.Name] {
+			out[r.Name] = true
+		}
+	}
+	return out
 }
 
 // ParamType is the declared parameter type for a term under o.
@@ -85,6 +115,10 @@ type nodeT struct {
 
 type nodesT []*nodeT
 type toksT []Token
+
+// nilI is the type of rules whose actions are side-effect-only: an interface nothing implements
+// (so that it matches no other parameter), whose only value is the nil interface.
+type nilI interface{ nilMarker() }
 
 // Discard: nodes covering an even number of input tokens are dropped by *!.
 func (n *nodeT) Discard() bool {
@@ -291,7 +325,13 @@ func (p *prs) _onBounds(r any, begin, end Token) {
 		b.WriteString(onBoundsSrc)
 	}
 	nRules := len(g.Rules)
-	defer func() {}()
+	nilRules := NilRules(g, o.NilMask)
+	ptype := func(t Term) string {
+		if t.Kind == KSym && !t.IsTok && nilRules[t.Name] {
+			return "nilI"
+		}
+		return ParamType(t, o)
+	}
 	for ri, r := range g.Rules {
 		if o.OnBounds && o.BoundsLayout == 2 && ri == nRules/2 {
 			b.WriteString("\nfunc (p *prs) helperBefore() int { return p.seq }\n")
@@ -302,16 +342,20 @@ func (p *prs) _onBounds(r any, begin, end Token) {
 		for _, p := range r.Prods {
 			var params, kids, sig []string
 			for i, t := range p.Terms {
-				params = append(params, fmt.Sprintf("a%d %s", i, ParamType(t, o)))
+				params = append(params, fmt.Sprintf("a%d %s", i, ptype(t)))
 				kids = append(kids, fmt.Sprintf("a%d", i))
-				sig = append(sig, ParamType(t, o))
+				sig = append(sig, ptype(t))
 			}
 			k := strings.Join(sig, ",")
 			if seen[k] {
 				continue
 			}
 			seen[k] = true
-			fmt.Fprintf(&b, "\nfunc (p *prs) on_%s__s%d(%s) *nodeT {\n", r.Name, len(seen), strings.Join(params, ", "))
+			rtype := "*nodeT"
+			if nilRules[r.Name] {
+				rtype = "nilI"
+			}
+			fmt.Fprintf(&b, "\nfunc (p *prs) on_%s__s%d(%s) %s {\n", r.Name, len(seen), strings.Join(params, ", "), rtype)
 			b.WriteString("\tp.step()\n")
 			for i, t := range p.Terms {
 				if t.Kind == KErr {
@@ -327,7 +371,11 @@ func (p *prs) _onBounds(r any, begin, end Token) {
 			if ri == 0 {
 				b.WriteString("\tp.res = n\n")
 			}
-			b.WriteString("\treturn n\n}\n")
+			if nilRules[r.Name] {
+				b.WriteString("\t_ = n\n\treturn nil\n}\n")
+			} else {
+				b.WriteString("\treturn n\n}\n")
+			}
 		}
 	}
 	if o.OnBounds && o.BoundsLayout == 1 {
@@ -393,6 +441,8 @@ func (v *val) show() string {
 		return "_"
 	case 'Z':
 		return "nil"
+	case 'N':
+		return "<nil>"
 	case 'e':
 		return fmt.Sprintf("E%d", v.tok)
 	case 'n':
@@ -449,8 +499,13 @@ type Expect struct {
 }
 
 // Expected walks the validated reference tree in reduction order.
-func Expected(p *Plain, tree *Node, w []int) *Expect {
+func Expected(p *Plain, tree *Node, w []int) *Expect { return ExpectedNil(p, tree, w, nil) }
+
+// ExpectedNil is Expected for an action file rendered with a NilMask: nilRules are the names
+// NilRules returned for it.
+func ExpectedNil(p *Plain, tree *Node, w []int, nilRules map[string]bool) *Expect {
 	ex := &Expect{}
+	var top *val
 	seq := 0
 	var walk func(n *Node, at int) (*val, int, int) // value, lo, hi (token span, lo==hi when empty)
 	walk = func(n *Node, at int) (*val, int, int) {
@@ -498,6 +553,11 @@ func Expected(p *Plain, tree *Node, w []int) *Expect {
 			un := &unode{rule: p.Names[pr.LHS], id: seq, kids: kids, ntok: nf}
 			// number of tokens covered counts real tokens only (frontier skips zero tokens; errors count as one entry)
 			v = &val{kind: 'n', node: un}
+			top = v
+			if nilRules[un.rule] {
+				// the action returns a nil interface: parents and _onBounds see <nil>
+				v = &val{kind: 'N'}
+			}
 			ex.Nodes++
 			if len(kids) > ex.MaxAr {
 				ex.MaxAr = len(kids)
@@ -570,6 +630,10 @@ func Expected(p *Plain, tree *Node, w []int) *Expect {
 	}
 	v, _, _ := walk(&Node{Prod: 0, Sym: p.Prods[0].LHS, Kids: []*Node{tree}}, 0)
 	ex.Tree = v.show()
+	if v.kind == 'N' && top != nil {
+		// the start action keeps its node in p.res although it returns nil
+		ex.Tree = top.show()
+	}
 	return ex
 }
 
